@@ -264,8 +264,10 @@ func (m *c20Model) apply(o c20Op) int {
 			m.vars["b"] = "2"
 		case "1/0", "n=1/0", "n=08":
 			return 1
-		case "0&&(n=7)", "0&&1/0", "1||(n=08)":
-			// operands C skips: no store, no fault
+		case "0&&(n=7)", "0&&1/0", "1||(n=08)", "-1||(n=7)":
+			// operands C skips: no store, no fault (any non-zero left operand of || is true)
+		case "-1&&(n=7)":
+			m.vars[o.Name] = "7"
 		case "n=0?08:5":
 			m.vars[o.Name] = "5"
 		case "(1||09)+(n=7)":
@@ -420,7 +422,7 @@ func c20Ops() []c20Op {
 		ops = append(ops, c20Op{Kind: "expand", Name: "a", Val: "arith", Inner: pn, Text: "$((a=" + ref + "+1))"})
 	}
 	for _, n := range []string{"a", "A"} {
-		for _, f := range []string{"n=1", "n+=1", "n++", "++n", "--n", "n", "m=n=2", "1/0", "n=1/0", "n=08", "0&&(n=7)", "0&&1/0", "1||(n=08)", "n=0?08:5", "(1||09)+(n=7)"} {
+		for _, f := range []string{"n=1", "n+=1", "n++", "++n", "--n", "n", "m=n=2", "1/0", "n=1/0", "n=08", "0&&(n=7)", "0&&1/0", "1||(n=08)", "n=0?08:5", "(1||09)+(n=7)", "-1||(n=7)", "-1&&(n=7)"} {
 			text := strings.ReplaceAll(f, "n", n)
 			text = strings.ReplaceAll(text, "m=", "b=")
 			ops = append(ops, c20Op{Kind: "eval", Name: n, Val: f, Text: text})
